@@ -207,8 +207,9 @@ class DashApp:
 
     def add_fixture(self, name: str, with_subs: bool = True, directory: str | None = None,
                     title: str | None = None, only: set[str] | None = None,
-                    extra: list[tuple[Path, str]] | None = None) -> None:
-        """Same rows as FlaskTestBase.setup_media_fixture; files are copied to the blob folder."""
+                    extra: list[tuple[Path, str]] | None = None, ref_stem: str | None = None) -> None:
+        """Same rows as FlaskTestBase.setup_media_fixture; files are copied to the blob folder.
+        ref_stem: fixture stem of the file that becomes the stream's timing reference (default: the first video file)."""
         from dashlive.server import models
         from dashlive.drm.playready import PlayReady
         from dashlive.mpeg.dash.representation import Representation
@@ -267,7 +268,7 @@ class DashApp:
                     encrypted=rep.encrypted, blob=blob)
                 mf.set_representation(rep)
                 mfs.append(mf)
-                if stream.timing_reference is None and '_v' in stem0:
+                if stream.timing_reference is None and (stem0 == ref_stem if ref_stem else '_v' in stem0):
                     stream.timing_reference = mf.as_stream_timing_reference()
             models.db.session.add(stream)
             for mf in mfs:
